@@ -2,6 +2,7 @@ package checks
 
 import (
 	"bytes"
+	"fmt"
 	"sort"
 	"strings"
 	"sync"
@@ -31,6 +32,83 @@ func stageName(s ir.ShaderStage) string {
 		return "compute"
 	}
 	return ""
+}
+
+type c18Want struct {
+	space, reg uint32
+	optional   bool // the resource may be unused by the entry point (then it is legitimately absent)
+}
+
+type c18Map struct {
+	label  string
+	kind   string // "spread", "shifted", "arraysize"
+	m      dxil.BindingMap
+	expect []c18Want
+}
+
+// c18BindingMaps: the nil map and, when full is set and the module has bound resources, a family of maps:
+// identity, shifted (register+3, space+1), and for every binding-array resource the array-size override
+// {equal, smaller, larger} (one resource at a time on top of the shifted map).
+func c18BindingMaps(m *ir.Module, full bool) []c18Map {
+	out := []c18Map{{label: "nil"}}
+	if !full {
+		return out
+	}
+	type res struct {
+		loc dxil.BindingLocation
+		arr *uint32 // binding-array size (nil: not a binding array; 0: unbounded)
+	}
+	var rs []res
+	for gi := range m.GlobalVariables {
+		g := &m.GlobalVariables[gi]
+		if g.Binding == nil {
+			continue
+		}
+		x := res{loc: dxil.BindingLocation{Group: g.Binding.Group, Binding: g.Binding.Binding}}
+		if int(g.Type) < len(m.Types) {
+			if ba, ok := m.Types[g.Type].Inner.(ir.BindingArrayType); ok {
+				n := uint32(0)
+				if ba.Size != nil {
+					n = *ba.Size
+				}
+				x.arr = &n
+			}
+		}
+		rs = append(rs, x)
+	}
+	if len(rs) == 0 {
+		return out
+	}
+	mk := func(label string, shift uint32, space uint32, override int, size uint32) c18Map {
+		bm := dxil.BindingMap{}
+		cm := c18Map{label: label, kind: strings.SplitN(label, "[", 2)[0]}
+		for i, x := range rs {
+			// every resource gets a register space of its own, so ranges cannot overlap by construction
+			t := dxil.BindTarget{Space: 10*space + uint32(i), Register: uint32(i)*8 + shift}
+			if i == override {
+				sz := size
+				t.BindingArraySize = &sz
+			}
+			bm[x.loc] = t
+			cm.expect = append(cm.expect, c18Want{space: t.Space, reg: t.Register, optional: true})
+		}
+		cm.m = bm
+		return cm
+	}
+	out = append(out, mk("spread", 0, 0, -1, 0), mk("shifted", 3, 1, -1, 0))
+	for i, x := range rs {
+		if x.arr == nil {
+			continue
+		}
+		n := *x.arr
+		for _, sz := range []uint32{n, n + 4, 1, 2} {
+			if sz == 0 {
+				continue
+			}
+			out = append(out, mk(fmt.Sprintf("arraysize[%d]=%d(type %d)", i, sz, n), 3, 1, i, sz))
+		}
+	}
+	return out
 }
 
 type c18Stats struct {
@@ -63,59 +141,80 @@ func c18Program(r *explore.Run, p *prog, allSM bool, st *c18Stats) {
 		}
 		for _, sm := range sms {
 			for _, bypass := range []bool{false, true} {
-				m := m0
-				if ei != 0 {
-					m = irx.Clone(m0)
-					m.EntryPoints[0], m.EntryPoints[ei] = m.EntryPoints[ei], m.EntryPoints[0]
-				}
-				o := dxil.Options{ShaderModel: sm, UseBypassHash: bypass}
-				b, err, pn := nagax.DXIL(m, o)
-				if pn != nil {
-					r.Skip("naga panic (belongs to C10)")
-					continue
-				}
-				if err != nil {
-					if st != nil {
-						st.mu.Lock()
-						st.errors[errClass(err.Error())]++
-						st.mu.Unlock()
+				for _, bm := range c18BindingMaps(m0, sm == sms[0] && !bypass) {
+					m := m0
+					if ei != 0 {
+						m = irx.Clone(m0)
+						m.EntryPoints[0], m.EntryPoints[ei] = m.EntryPoints[ei], m.EntryPoints[0]
 					}
-					r.Skip("dxil.Compile returned an ordinary error (allowed by the property)")
-					continue
-				}
-				r.Count("evaluations", 1)
-				ex := dxbc.Expect{Stage: stage, SMMajor: int(sm.Major), SMMinor: int(sm.Minor), AllowSMUpgrade: true, BypassHash: bypass}
-				if stage == "compute" {
-					ws := m.EntryPoints[0].Workgroup
-					ex.NumThreads = &[3]uint32{ws[0], ws[1], ws[2]}
-				}
-				rep := dxbc.Check(b, ex)
-				if st != nil {
-					st.mu.Lock()
-					for k, v := range rep.Fired {
-						st.fired[k] += int64(v)
-					}
-					st.mu.Unlock()
-				}
-				rp := p.replay()
-				rp["entry_point"] = m.EntryPoints[0].Name
-				rp["sm"] = []uint32{sm.Major, sm.Minor}
-				rp["bypass_hash"] = bypass
-				seen := map[string]bool{}
-				for _, f := range rep.Findings {
-					key := "C18|" + f.Rule + "|" + errClass(f.Detail) + "|" + sc
-					if seen[key] {
+					o := dxil.Options{ShaderModel: sm, UseBypassHash: bypass, BindingMap: bm.m}
+					b, err, pn := nagax.DXIL(m, o)
+					if pn != nil {
+						r.Skip("naga panic (belongs to C10)")
 						continue
 					}
-					seen[key] = true
-					r.Violate(explore.Violation{Key: key, Detail: "DXIL container for " + p.Sig + " entry " + m.EntryPoints[0].Name + " breaks rule " + f.Rule + ": " + f.Detail, Replay: rp})
-				}
-				if !bypass && sm == dxil.SM6_0 {
-					r.DistinctBytes(b)
-					// determinism: a second call yields identical bytes
-					b2, err2, pn2 := nagax.DXIL(m, o)
-					if pn2 == nil && (err2 != nil || !bytes.Equal(b, b2)) {
-						r.Violate(explore.Violation{Key: "C18|nondeterministic|" + sc, Detail: "two dxil.Compile calls on the same module and options differ for " + p.Sig, Replay: rp})
+					if err != nil {
+						if st != nil {
+							st.mu.Lock()
+							st.errors[errClass(err.Error())]++
+							st.mu.Unlock()
+						}
+						r.Skip("dxil.Compile returned an ordinary error (allowed by the property)")
+						continue
+					}
+					r.Count("evaluations", 1)
+					ex := dxbc.Expect{Stage: stage, SMMajor: int(sm.Major), SMMinor: int(sm.Minor), AllowSMUpgrade: true, BypassHash: bypass}
+					if stage == "compute" {
+						ws := m.EntryPoints[0].Workgroup
+						ex.NumThreads = &[3]uint32{ws[0], ws[1], ws[2]}
+					}
+					rep := dxbc.Check(b, ex)
+					if st != nil {
+						st.mu.Lock()
+						for k, v := range rep.Fired {
+							st.fired[k] += int64(v)
+						}
+						st.mu.Unlock()
+					}
+					rp := p.replay()
+					rp["entry_point"] = m.EntryPoints[0].Name
+					rp["sm"] = []uint32{sm.Major, sm.Minor}
+					rp["bypass_hash"] = bypass
+					rp["binding_map"] = bm.label
+					seen := map[string]bool{}
+					for _, f := range rep.Findings {
+						key := "C18|" + f.Rule + "|" + errClass(f.Detail) + "|" + sc
+						if bm.m != nil && (strings.HasPrefix(f.Rule, "dxmeta.") || strings.HasPrefix(f.Rule, "psv.")) {
+							key += "|map:" + bm.kind // resource-level rules are judged per kind of binding map
+						}
+						if seen[key] {
+							continue
+						}
+						seen[key] = true
+						r.Violate(explore.Violation{Key: key, Detail: "DXIL container for " + p.Sig + " entry " + m.EntryPoints[0].Name + " breaks rule " + f.Rule + ": " + f.Detail, Replay: rp})
+					}
+					// the binding map is honoured: every mapped resource appears in the metadata at its target
+					if bm.m != nil {
+						for _, want := range bm.expect {
+							found := false
+							for _, res := range rep.Resources {
+								if res.Space == want.space && res.LowerBound == want.reg {
+									found = true
+								}
+							}
+							if !found && len(rep.Resources) > 0 && !want.optional {
+								r.Violate(explore.Violation{Key: "C18|binding-map|mapped resource not at its target|" + sc + "|map:" + bm.kind,
+									Detail: fmt.Sprintf("DXIL container for %s entry %s under binding map %s: no resource at (space %d, register %d) in dx.resources %v", p.Sig, m.EntryPoints[0].Name, bm.label, want.space, want.reg, rep.Resources), Replay: rp})
+							}
+						}
+					}
+					if !bypass && sm == dxil.SM6_0 && bm.m == nil {
+						r.DistinctBytes(b)
+						// determinism: a second call yields identical bytes
+						b2, err2, pn2 := nagax.DXIL(m, o)
+						if pn2 == nil && (err2 != nil || !bytes.Equal(b, b2)) {
+							r.Violate(explore.Violation{Key: "C18|nondeterministic|" + sc, Detail: "two dxil.Compile calls on the same module and options differ for " + p.Sig, Replay: rp})
+						}
 					}
 				}
 			}
@@ -127,14 +226,16 @@ func runC18() int {
 	r := explore.New("C18")
 	st := &c18Stats{fired: map[string]int64{}, errors: map[string]int64{}}
 	f1 := wgen.F1()
-	stride := 7
+	stride, cstride := 2, 4
 	if r.Thorough() {
-		stride = 1
+		stride, cstride = 1, 1
 	}
-	sub := &wgen.Family{Name: "F1", Count: (f1.Count + stride - 1) / stride, At: func(i int) *wgen.Case { return f1.At(i * stride) }}
-	fams := []*wgen.Family{sub, wgen.F2(2, false), wgen.F2L(2, false)}
+	strided := func(f *wgen.Family, st int) *wgen.Family {
+		return &wgen.Family{Name: f.Name, Count: (f.Count + st - 1) / st, At: func(i int) *wgen.Case { return f.At(i * st) }}
+	}
+	fams := []*wgen.Family{strided(f1, stride), wgen.F2(2, false), wgen.F2L(2, false), wgen.F2Mini(4, 3), strided(wgen.F4c(false), cstride), wgen.F1lit()}
 	if r.Thorough() {
-		fams = append(fams, wgen.F2(4, true), wgen.F2L(3, true))
+		fams = append(fams, wgen.F2(4, true), wgen.F2L(3, true), wgen.F2LMini(4, 1), wgen.F2LMini(4, 2))
 	}
 	texts := append(append([]wgen.Micro{}, wgen.Micros...), corpus()...)
 	forEachProgram(r, fams, texts, func(p *prog) { c18Program(r, p, p.Case == nil || r.Thorough(), st) })
